@@ -40,10 +40,10 @@ Explains(kind, p, e) ==
     /\ CASE e.ev = "Prompt" -> p.d = e.d
          [] e.ev = "Store"  -> /\ p.d.call = e.d.call /\ p.d.idsGiven = e.d.idsGiven /\ p.d.ids = e.d.ids
                                /\ p.d.rp = e.d.rp /\ p.d.cred = e.d.cred /\ p.d.ok = e.d.ok /\ p.d.err = e.d.err
-                               /\ p.d.found = e.d.found /\ p.d.faulted = e.d.faulted
+                               /\ p.d.found = e.d.found /\ p.d.faulted = e.d.faulted /\ p.d.opts = e.d.opts
                                /\ SameSnap(kind, p.d.snap, e.d.snap)
          [] e.ev = "Cancel" -> p.d.after = e.d.after
-         [] e.ev = "End"    -> /\ p.d.ok = e.d.ok /\ p.d.err = e.d.err
+         [] e.ev = "End"    -> /\ p.d.ok = e.d.ok /\ p.d.err = e.d.err /\ p.d.werr = e.d.werr
                                /\ (p.d.ok => /\ p.d.flags = e.d.flags /\ p.d.ctr = e.d.ctr
                                              /\ p.d.cred = e.d.cred /\ p.d.user = e.d.user
                                              /\ p.d.rphash = e.d.rphash /\ p.d.sigkey = e.d.sigkey
